@@ -7,7 +7,7 @@ def S(xs):
     return '{' + ', '.join('"%s"' % x for x in xs) + '}'
 
 
-def core(name, acts, maxn, adds, stack=0, und=0, rst=0, perm=3, invariants=True, probe=0, minn=0, initlive=-1, **kw):
+def core(name, acts, maxn, adds, stack=0, und=0, rst=0, perm=3, invariants=True, probe=0, minn=0, initlive=99, **kw):
     st = {
         'kind': 'gen_replay', 'name': name, 'module': 'Core', 'fam': 'core', 'spec': 'Spec', 'view': 'View',
         'constants': {'MaxN': maxn, 'MaxAdds': adds, 'MaxStack': stack, 'MaxUnd': und, 'MaxRst': rst,
